@@ -1,5 +1,9 @@
 """C12 — 3x3 tensor helpers, Pade cos(acos(x)/3), relative differences and the custom derivative rules of the
 symmetric-tensor functions (JX, all reals).  The eigen-solver itself is replaced by its contract (DESIGN.md section 2)."""
+import os as _os
+if 'intra_op_parallelism_threads' not in _os.environ.get('XLA_FLAGS', ''):
+    # obligations run 14 at a time on shared cores: keep every worker's XLA (eager replays, jit compiles) single-threaded
+    _os.environ['XLA_FLAGS'] = (_os.environ.get('XLA_FLAGS', '') + ' --xla_cpu_multi_thread_eigen=false intra_op_parallelism_threads=1').strip()
 import math
 import numpy as onp
 import jax
@@ -18,7 +22,7 @@ if hasattr(_sys, 'set_int_max_str_digits'):
 
 NA = ('eigen_sym33_non_unit / eigen_sym33_unit on general symmetric tensors (rational functions of degree ~8 in six variables with a dozen '
       'data-dependent switches): replaced by their contract in O5/O6; the real routine is decided only on the low-dimensional families of O7',
-      'pow_symm / _pow_relative_difference accuracy', 'right_polar_decomposition',
+      'pow_symm / _pow_relative_difference ACCURACY near repeated eigenvalues (their real-arithmetic identities are in O4 / O5b.rule_pow)', 'right_polar_decomposition',
       'LinAlg.sqrtm / sqrtm_dbp / logm_iss / log_pade_pf (while loops over LU-based inverses)',
       'equivalence of a single compiled call and vmap/jit batches (JAX transformation semantics are part of the trusted base)',
       'rounding error of the evaluation (all values are mathematical reals)')
@@ -48,6 +52,7 @@ DESIGNED_NOT_REGISTERED = [
      'the named local eval2 cut to the exact eigenvalue (O7.eigen_sym33_deflation_on_pivot_ties), all three pivot ties'),
     ('O7 deflation stage, members whose out-of-plane eigenvalue -2d is the extreme one (cases C+/C-)', 'unknown @60 s with and without sqrt hints (the '
      'Wilkinson discriminant is a perfect square the solver does not find within the pruning time-out)'),
+    ('O1b derivative of inv: A d(inv A) A = -dA (or d(inv) = -inv dA inv)', 'unknown @15-60 s per entry (rational identity in 18 variables with 1/det and its derivative; one query hangs past its time-out); the hand-written-rule seed on det/adjugate is caught by the det / detpIm1 atoms'),
     ('O8a with a general (non-eigenframe) V', 'unknown/hang @300 s (degree-7 rational identity in 40 variables); eigenframe registered'),
     ('O8b with both directions symbolic', 'entries [02],[12] unknown @60 s; registered with the second direction over the symmetric basis (linearity)'),
     ('O7 monolithic queries on eigen_sym33_unit without the normalisation cut for 1-parameter families other than s*I', 'erratic (14 s to unknown @120 s '
@@ -420,6 +425,29 @@ def fe_axioms(ctx):
     return ax
 
 
+def pow_axioms(ctx):
+    """ground instances of the functional equations of pow(x, e) (x > 0) on the uninterpreted pow terms that occur:
+    pow(x, e) pow(y, e) = pow(z, e) when x y = z; pow(x, e) x = pow(x', e') when x = x' and e + 1 = e'; pow(x, e) > 0; pow(1, e) = 1"""
+    ax = []
+    es = [(v, a[0], a[1]) for v, n, a in ctx.ufs.values() if n == 'pow']
+    for v, x, e in es:
+        ax += [z3.Implies(x > 0, v > 0), z3.Implies(x == 1, v == 1)]
+        if z3.is_rational_value(e) and e.numerator_as_long() == -1 and e.denominator_as_long() == 2:
+            ax.append(z3.Implies(x > 0, v * v * x == 1))        # x^(-1/2): the interpreter encodes x^(1/2) as sqrt, this ties the two
+    for i in range(len(es)):
+        for j in range(len(es)):
+            (v1, x1, e1), (v2, x2, e2) = es[i], es[j]
+            if i != j:
+                ax.append(z3.Implies(z3.And(x1 > 0, x1 == x2, e1 + 1 == e2), v1 * x1 == v2))
+            if i <= j:
+                for k in range(len(es)):
+                    v3, x3, e3 = es[k]
+                    ax.append(z3.Implies(z3.And(x1 > 0, x2 > 0, e1 == e2, e2 == e3, x1 * x2 == x3), v1 * v2 == v3))
+    return ax
+
+
+POW_NOTE = ('pow with a non-integer or symbolic exponent is uninterpreted (Ackermannised) with ground instances of x^e y^e = (xy)^e, x^e x = x^(e+1), '
+            'x^e > 0, 1^e = 1 for x, y > 0 (instantiated on the terms that occur)')
 FE_NOTE = ('exp, expm1, log, log1p are uninterpreted (Ackermannised) with ground instances of: expm1(t)=exp(t)-1, log1p(t)=log(1+t), '
            'exp(x)exp(y)=exp(x+y), log(x)+log(y)=log(xy) for x,y>0, exp>0, exp(0)=1, log(1)=0 (instantiated on the terms that occur)')
 
@@ -535,18 +563,22 @@ def o3(h):
 
 
 # ------------------------------------------------------------------------------------------------ O4
+POW_EXPONENTS = (0.25, 0.5, 2.0, 3.0, -1.0)
+
+
 @obligation(P, 'O4.relative_differences', cap=240)
 def o4(h):
     """the relative-difference helpers are the divided differences of their scalar functions:
     rd(a,b) (a - b) = f(a) - f(b) for sqrt (exactly, all a,b >= 0 not both 0), exp (all a != b), log (all a != b > 0)"""
     T = TM()
     h.encoded(T._sqrt_relative_difference, T._exp_relative_difference, T._log_relative_difference,
-              T._relative_log_difference, T._relative_log_difference_no_tolerance_check)
+              T._relative_log_difference, T._relative_log_difference_no_tolerance_check, T._pow_relative_difference)
     h.bounds('sqrt: all reals a, b >= 0 with a + b > 0; exp: all reals a != b; log: all reals a, b > 0, a != b',
              '_relative_log_difference (not used by the *_symm functions): only its closed-form branch |a-b| > 0.05 min(a,b)')
     h.outside('the Taylor branch of _relative_log_difference (|a-b| <= 0.05 min(a,b)): a truncation-error bound against log, not attempted',
-              '_pow_relative_difference', *NA)
-    h.assume_note(FE_NOTE)
+              'accuracy (cancellation) of _pow_relative_difference near a = b: only the real-arithmetic identity is claimed', *NA)
+    h.assume_note(FE_NOTE, POW_NOTE)
+    h.bounds('pow: all reals a, b > 0, a != b; exponent m in %s and m symbolic (all reals)' % (POW_EXPONENTS,))
     pos2 = lambda rng: [abs(rng.normal()) + 0.1, abs(rng.normal()) + 0.1]
 
     c = Case(h, lambda a, b: (T._sqrt_relative_difference(a, b), jnp.sqrt(a), jnp.sqrt(b)), dict(a=0.7, b=0.2), sampler=pos2, label='sqrt_rd')
@@ -580,6 +612,18 @@ def o4(h):
             Eq(v_mul(s0(o[0]), v_sub(a, b)), v_sub(s0(o[1]), s0(o[2])), name='is_divided_difference')
     c = Case(h, lambda a, b: (T._relative_log_difference(a, b), jnp.log(a), jnp.log(b)), dict(a=0.7, b=0.2), sampler=pos2, label='log_rd_switch')
     c.prove('log_alt_large_difference_branch', spec_log_large, order=('nlsat', 'core'), denoms=False, extra_assumes=fe_axioms(c.ctx), cap=60)
+
+    # pow: rd(a, b, m) (a - b) = a^m - b^m, a, b > 0 distinct
+    def spec_pow(i, o):
+        a, b = s0(i['a']), s0(i['b'])
+        return [v_lt(0.0, a), v_lt(0.0, b), v_not(v_eq(a, b))], Eq(v_mul(s0(o[0]), v_sub(a, b)), v_sub(s0(o[1]), s0(o[2])), name='is_divided_difference')
+    for m in POW_EXPONENTS:
+        c = Case(h, lambda a, b, m=m: (T._pow_relative_difference(a, b, m), jnp.power(a, m), jnp.power(b, m)), dict(a=0.7, b=0.2), sampler=pos2, label='pow_rd[m=%g]' % m)
+        c.prove('pow[m=%g]' % m, spec_pow, order=('nlsat', 'core'), denoms=False, extra_assumes=pow_axioms(c.ctx), cap=60)
+    # symbolic exponent (last: a rewritten helper may use primitives without a symbolic model, which must not hide the cases above)
+    c = Case(h, lambda a, b, m: (T._pow_relative_difference(a, b, m), jnp.power(a, m), jnp.power(b, m)), dict(a=0.7, b=0.2, m=0.25),
+             sampler=lambda rng: pos2(rng) + [rng.uniform(-2, 3)], label='pow_rd[m symbolic]')
+    c.prove('pow[m symbolic]', spec_pow, order=('nlsat', 'core'), denoms=False, extra_assumes=pow_axioms(c.ctx), cap=60)
 
 
 # ------------------------------------------------------------------------------------------------ eigen contract stub
@@ -704,13 +748,13 @@ def o5a(h):
     c.prove('tables', spec_tab, cap=30)
 
 
-def _rule_case(h, which):
+def _rule_case(h, which, m=None):
     """trace jax.jvp of the real sqrt_symm / exp_symm / log_symm (their custom_jvp rules) twice in one context: with the stub
     (lam, V) and perturbation Cd, and in the eigenframe (lam, I) with the all-ones perturbation (whose tangent is the coefficient
     matrix H itself)"""
     T = TM()
-    f_symm = {'sqrt': T.sqrt_symm, 'exp': T.exp_symm, 'log': T.log_symm}[which]
-    f_sc = {'sqrt': jnp.sqrt, 'exp': jnp.exp, 'log': jnp.log}[which]
+    f_symm = {'sqrt': T.sqrt_symm, 'exp': T.exp_symm, 'log': T.log_symm, 'pow': lambda A: T.pow_symm(A, m)}[which]
+    f_sc = {'sqrt': jnp.sqrt, 'exp': jnp.exp, 'log': jnp.log, 'pow': lambda x: jnp.power(x, m)}[which]
 
     def fn(lam, V, Cd):
         with eig_stub(lam, V):
@@ -720,15 +764,15 @@ def _rule_case(h, which):
         return S, L, S0, H, f_sc(lam)
     lo = -1.0 if which == 'exp' else 0.2
     smp = lambda rng: [ascending_sampler(rng, lo), rnd_orth(rng), rnd33(rng)]
-    return Case(h, fn, dict(lam=onp.array([0.5, 1.0, 2.0]), V=onp.eye(3), Cd=onp.ones((3, 3))), sampler=smp, label='%s_symm_jvp' % which, jit=False)
+    return Case(h, fn, dict(lam=onp.array([0.5, 1.0, 2.0]), V=onp.eye(3), Cd=onp.ones((3, 3))), sampler=smp, label='%s_symm_jvp%s' % (which, '' if m is None else '[m=%g]' % m), jit=False)
 
 
-def _rule_obligation(h, which):
+def _rule_obligation(h, which, m=None):
     T = TM()
     from optimism import Math
-    rule = {'sqrt': T._sqrt_symm_jvp, 'exp': T._exp_symm_jvp, 'log': T._log_symm_jvp}[which]
-    rdf = {'sqrt': T._sqrt_relative_difference, 'exp': T._exp_relative_difference, 'log': T._log_relative_difference}[which]
-    fs = {'sqrt': T.sqrt_symm, 'exp': T.exp_symm, 'log': T.log_symm}[which]
+    rule = {'sqrt': T._sqrt_symm_jvp, 'exp': T._exp_symm_jvp, 'log': T._log_symm_jvp, 'pow': T._pow_symm_jvp}[which]
+    rdf = {'sqrt': T._sqrt_relative_difference, 'exp': T._exp_relative_difference, 'log': T._log_relative_difference, 'pow': T._pow_relative_difference}[which]
+    fs = {'sqrt': T.sqrt_symm, 'exp': T.exp_symm, 'log': T.log_symm, 'pow': T.pow_symm}[which]
     h.encoded(fs, rule, rdf, T._symmetric_matrix_function_jvp_helper, T.symmetric_matrix_function, T.sym)
     if which == 'sqrt':
         h.encoded(Math.safe_sqrt, Math.safe_sqrt_jvp)
@@ -737,14 +781,17 @@ def _rule_obligation(h, which):
               'eigen-decomposition (Daleckii-Krein theorem): mathematics, cited; for sqrt the defining equation L S + S L = sym(dC) is '
               'proved separately (O5c)')
     h.assume_note(CONTRACT_NOTE)
-    if which != 'sqrt':
+    if which in ('exp', 'log'):
         h.assume_note(FE_NOTE)
+    if which == 'pow':
+        h.assume_note(POW_NOTE)
     dom = {'sqrt': 'lam_i >= 0 (derivative claims: lam_i > 0; at lam_i = 0 the code returns derivative 0, stated)', 'exp': 'all real lam',
-           'log': 'lam_i > 0'}[which]
+           'log': 'lam_i > 0', 'pow': 'lam_i > 0, exponent m = %s' % m}[which]
     h.bounds('entries (eigenframe): lam ascending, %s, repeated eigenvalues included' % dom,
              'structure: any lam in the domain of f (any order), any real 3x3 V (orthogonal or not), any real 3x3 Cdot')
-    c = _rule_case(h, which)
-    ax = fe_axioms(c.ctx) if which != 'sqrt' else []
+    c = _rule_case(h, which, m)
+    ax = fe_axioms(c.ctx) if which in ('exp', 'log') else pow_axioms(c.ctx) if which == 'pow' else []
+    tag = '' if m is None else '[m=%g]' % m
 
     def spec_entries(i, o):
         lam = list(i['lam'])
@@ -752,7 +799,7 @@ def _rule_obligation(h, which):
         asm = [v_le(lam[0], lam[1]), v_le(lam[1], lam[2])]
         if which == 'sqrt':
             asm.append(v_le(0.0, lam[0]))
-        if which == 'log':
+        if which in ('log', 'pow'):
             asm.append(v_lt(0.0, lam[0]))
         ats = [Eq(fl(S0), fl(mdiag(f)), name='primal_is_diag_f_lam')]
         for k in range(3):
@@ -761,6 +808,8 @@ def _rule_obligation(h, which):
                 ats.append(Eq(H[k][k], 0.0, when=v_eq(lam[k], 0.0), name='diag%d_zero_at_zero_eigenvalue' % k))
             elif which == 'exp':
                 ats.append(Eq(H[k][k], f[k], name='diag%d_is_derivative' % k))
+            elif which == 'pow':
+                ats.append(Eq(v_mul(lam[k], H[k][k]), v_mul(m, f[k]), name='diag%d_is_derivative' % k))      # m x^(m-1) = m x^m / x
             else:
                 ats.append(Eq(v_mul(lam[k], H[k][k]), 1.0, name='diag%d_is_derivative' % k))
         for a in range(3):
@@ -773,16 +822,16 @@ def _rule_obligation(h, which):
                                   name='offdiag%d%d_is_divided_difference' % (a, b)))
                     ats.append(Eq(H[a][b], H[a][a], when=v_eq(lam[a], lam[b]), name='offdiag%d%d_confluent_is_derivative' % (a, b)))
         return asm, ats
-    c.prove('entries', spec_entries, order=('nlsat', 'core'), denoms=False, extra_assumes=ax, cap=60)
+    c.prove('entries' + tag, spec_entries, order=('nlsat', 'core'), denoms=False, extra_assumes=ax, cap=60)
 
     def spec_struct(i, o):
         lam, V, Cd = list(i['lam']), M(i['V']), M(i['Cd'])
         S, L, H, f = M(o[0]), M(o[1]), M(o[3]), list(o[4])
         # (the identities hold for any lam; the domain of f is assumed only so that a counterexample is replayable in floats)
-        dom_asm = {'sqrt': [v_le(0.0, x) for x in lam], 'log': [v_lt(0.0, x) for x in lam], 'exp': []}[which]
+        dom_asm = {'sqrt': [v_le(0.0, x) for x in lam], 'log': [v_lt(0.0, x) for x in lam], 'exp': [], 'pow': [v_lt(0.0, x) for x in lam]}[which]
         return dom_asm, [Eq(fl(L), fl(dk_formula(V, H, Cd)), name='tangent_is_V_HoW_Vt'),
                     Eq(fl(S), fl(mm(mm(V, mdiag(f)), mT(V))), name='primal_is_V_f_lam_Vt')]
-    c.prove('structure', spec_struct, order=('nlsat', 'core'), denoms=False, cap=60)
+    c.prove('structure' + tag, spec_struct, order=('nlsat', 'core'), denoms=False, cap=60)
     return c
 
 
@@ -797,6 +846,15 @@ def o5b_sqrt(h):
 def o5b_exp(h):
     """jvp rule of exp_symm: as O5b.rule_sqrt with H_ii = exp lam_i, H_ij = (exp lam_i - exp lam_j)/(lam_i - lam_j)"""
     _rule_obligation(h, 'exp')
+
+
+@obligation(P, 'O5b.rule_pow', cap=300)
+def o5b_pow(h):
+    """jvp rule of pow_symm(A, m): as O5b.rule_sqrt with H_ii = m lam_i^(m-1), H_ij = (lam_i^m - lam_j^m)/(lam_i - lam_j), for the exponents
+    m = 0.25 (Seth-Hill), 2 in the quick tier and 0.5, 3, -1 in addition in the thorough tier (real-arithmetic identity only: the accuracy
+    of the relative difference near repeated eigenvalues is outside the claim)"""
+    for m in (POW_EXPONENTS if h.thorough() else (0.25, 2.0)):
+        _rule_obligation(h, 'pow', m)
 
 
 @obligation(P, 'O5b.rule_log', cap=300)
@@ -923,7 +981,7 @@ def quat_R(q):
             [two(x, z, w, y, -1), two(y, z, w, x, +1), v_sub(v_add(sq(w), sq(z)), v_add(sq(x), sq(y)))]]
 
 
-@obligation(P, 'O5d.sqrt_equation_all_rotations_chain', tiers=('thorough',), cap=900)
+@obligation(P, 'O5d.sqrt_equation_all_rotations_chain', tiers=('thorough',), cap=1200)
 def o5d(h):
     """cut-lemma chain for ALL orientations: from the forms proved on the real code for every stub pair (O5b.rule_sqrt):
     L = V (H o (V^T dC V)) V^T, S = V diag(s) V^T, H_ab (s_a + s_b) = 1 (entries, incl. the confluent case 2 s_a H_aa = 1),
@@ -979,7 +1037,8 @@ def o5d(h):
             Vc = onp.asarray(vals['V'], dtype=float).reshape(3, 3)
             asm_c, atom_c = build(f('q'), f('s'), f('d'), f('h'), float(vals['t']), [[float(Vc[a, b]) for b in range(3)] for a in range(3)])[name]
             return all(bool(x) for x in asm_c), atom_c, 'harness algebra (no code involved)'
-        h.prove(name, asm, atom, inputs=inputs, concrete=concrete, cap=200, order=('core',) if name.startswith('sylvester') else ('nlsat', 'core'))
+        # the core solver needs ~15 s per entry alone but was seen to wander off under heavy machine load: three fresh attempts
+        h.prove(name, asm, atom, inputs=inputs, concrete=concrete, cap=360, order=('core', 'core', 'core') if name.startswith('sylvester') else ('nlsat', 'core'))
 
 
 # ------------------------------------------------------------------------------------------------ O7: the real eigen-solver on families
@@ -1019,7 +1078,43 @@ def _eig_case(h, label, npar, family, N=None, sampler=None, which='unit', hyp=No
     if hyp is not None:
         ctx.hyps = [sym.tob(x) for x in hyp(list(sym.sym_array('p', (npar,))))]
         ctx.decide = Pruner(ctx, ctx.hyps, timeout_ms=prune_ms)
-    return Case(h, fn, dict(p=ex), sampler=sampler, label=label, jit=False, ctx=ctx)
+    cs = Case(h, fn, dict(p=ex), sampler=sampler, label=label, jit=False, ctx=ctx, validate=0)
+    _validate_eig(h, fn, cs.cj, sampler, label)
+    return cs
+
+
+def _validate_eig(h, fn, cj, sampler, label, n=3, tol=1e-7):
+    """translator validation for eigen outputs on sign- and conditioning-insensitive quantities: lam, A, the normalised tensor, inner
+    eigenvalues, V diag(lam) V^T and V^T V (an eigenvector is only defined up to sign, and exact rational arithmetic may take the
+    other side of a `sign(0)` / tie switch than binary64 does)"""
+    rng = onp.random.default_rng(h.seed)
+    worst = 0.0
+    for _ in range(n):
+        args = [onp.asarray(v, dtype=float) for v in sampler(rng)]
+        real = [onp.asarray(x, dtype=float) for x in fn(*[jnp.asarray(a) for a in args])]
+        g = jx.Ctx(ground=True)
+        outs = jx.eval_jaxpr(g, cj.jaxpr, cj.consts, *[jx.ew(lambda v: sym.rat(v), a) for a in args])
+
+        def num(o):
+            r = onp.empty(o.shape, dtype=float)
+            for idx in (onp.ndindex(*o.shape) if o.shape else [()]):
+                x = o[idx]
+                v = jx.ground_num(g, sym.toz(x)) if sym.isz(x) else x
+                if v is None:
+                    raise jx.JXError('validation: output did not reduce to a numeral')
+                r[idx] = float(v)
+            return r
+        got = [num(o) for o in outs]
+
+        def derived(o):
+            lam, V = o[0], o[1]
+            return [lam, o[2], o[3], o[4], V @ onp.diag(lam) @ V.T, V.T @ V]
+        for a, b in zip(derived(got), derived(real)):
+            err = float(onp.abs(a - b).max()) / (1.0 + float(onp.abs(b).max()))
+            worst = max(worst, err)
+            if not err <= tol:
+                raise jx.JXError('translator validation failed (eigen, sign-insensitive quantities): %r vs %r at %s' % (a.tolist(), b.tolist(), [x.tolist() for x in args]))
+    h.fact('translator_validation[%s]' % label, True, 'max rel err %.2e on %d ground runs (lam, A, normalised tensor, V diag(lam) V^T, V^T V)' % (worst, n), nontrivial=False)
 
 
 def _inf_norm(A):
@@ -1287,8 +1382,12 @@ class StageCase:
         self.h, self.fn, self.label = h, fn, label
         ex = onp.asarray(sampler(onp.random.default_rng(1))[0], dtype=float)
         self.cj = jax.make_jaxpr(fn)(jnp.asarray(ex))
-        worst = jx.validate(fn, [ex], n=3, seed=h.seed, sampler=lambda rng: [onp.asarray(v, dtype=float) for v in sampler(rng)], cj=self.cj)
-        h.fact('translator_validation[%s]' % label, True, 'max rel err %.2e on 3 ground runs of the symbolic path (no cut)' % worst, nontrivial=False)
+        # eigenvectors of the non-unit routine are defined up to a non-zero factor: validate lam, A and the projectors v v^T / (v.v)
+        def insensitive(p_):
+            lam_, V_, A_ = fn(p_)
+            return lam_, A_, jnp.stack([jnp.outer(V_[:, k], V_[:, k]) / (V_[:, k] @ V_[:, k]) for k in range(3)])
+        worst = jx.validate(insensitive, [ex], n=3, seed=h.seed, sampler=lambda rng: [onp.asarray(v, dtype=float) for v in sampler(rng)], rtol=1e-7)
+        h.fact('translator_validation[%s]' % label, True, 'max rel err %.2e on 3 ground runs of the symbolic path (no cut; lam, A, eigen-projectors)' % worst, nontrivial=False)
         p = sym.sym_array('p', (npar,))
         self.inp = {'p': p}
         self.ctx = jx.Ctx()
@@ -1332,16 +1431,17 @@ def _tie_cases():
     not larger than the tied pair (1: the tie decides the pivot) or larger (2)."""
     out = {}
     for nm, sgn in (('P', 1.0), ('N', -1.0)):
-        for sub in (1, 2):
+        for sub in (1, 2, 3):
             def hyps(p, sgn=sgn, sub=sub):
                 a, g, c = p
                 d = _third(v_sub(a, c))
                 c1 = _third(v_add(v_mul(2.0, a), c))
                 e = v_mul(sgn, v_add(d, g))
                 o1, o2 = v_sub(d, g), v_mul(-2.0, d)
-                k2le = v_le(v_sq(v_sub(v_sub(c, a), g)), v_mul(2.0, v_sq(g)))
+                third, tied = v_sq(v_sub(v_sub(c, a), g)), v_mul(2.0, v_sq(g))
+                rel = {1: v_lt(third, tied), 2: v_lt(tied, third), 3: v_eq(third, tied)}[sub]
                 return [v_lt(v_mul(1e-30, v_sq(c1)), v_add(v_mul(3.0, v_sq(d)), v_sq(g))), v_lt(0.0, e),
-                        v_lt(o1, e), v_lt(v_mul(-1.0, o1), e), v_lt(o2, e), v_lt(v_mul(-1.0, o2), e), k2le if sub == 1 else v_not(k2le)]
+                        v_lt(o1, e), v_lt(v_mul(-1.0, o1), e), v_lt(o2, e), v_lt(v_mul(-1.0, o2), e), rel]
             out['%s%d' % (nm, sub)] = hyps
     return out
 
@@ -1399,8 +1499,8 @@ def o7e(h):
     _o7_meta(h)
     h.encoded('named local eval2 of eigen_sym33_non_unit is cut (see assumptions)')
     h.bounds('a, g, c: all reals with the in-plane deviatoric eigenvalue d + g (d = (a-c)/3) strictly extreme in magnitude (positive: P, negative: N), not '
-             'nearly isotropic (3 d^2 + g^2 > 1e-30 c1^2, the code\'s own fallback threshold); sub-case 1: (c-a-g)^2 <= 2 g^2, i.e. the third pivot '
-             'candidate is not larger than the tied pair, so the TIE decides the pivot; sub-case 2: it is larger',
+             'nearly isotropic (3 d^2 + g^2 > 1e-30 c1^2, the code\'s own fallback threshold); sub-case 1: (c-a-g)^2 < 2 g^2, i.e. the third pivot '
+             'candidate is smaller than the tied pair, so the TIE decides the pivot; sub-case 2: it is larger (the measure-zero surface where all three are equal is not covered)',
              'quick: plane xy (tie k0 == k1), cases P1 N1 P2 N2; thorough: also yz (k1 == k2) and xz (k0 == k2)')
     h.outside('members whose out-of-plane eigenvalue -2d is the extreme one (cases C: unknown @60 s, see DESIGNED_NOT_REGISTERED)',
               'the accuracy of eval2 itself (Pade + trigonometric formula): cut')
@@ -1736,3 +1836,44 @@ def o8c_exp(h):
     """as O8c..._sqrt for exp_symm"""
     _o8c_meta(h, 'exp')
     _o8c(h, 'exp', REPEATED_POINTS)
+
+
+# ------------------------------------------------------------------------------------------------ O1b: derivatives of det / detpIm1 / inv
+def cofactor(A):
+    """matrix of cofactors C_ij = d det / d A_ij (harness formula)"""
+    C = [[None] * 3 for _ in range(3)]
+    for i in range(3):
+        for j in range(3):
+            r = [x for x in range(3) if x != i]
+            q = [x for x in range(3) if x != j]
+            minor = v_sub(v_mul(A[r[0]][q[0]], A[r[1]][q[1]]), v_mul(A[r[0]][q[1]], A[r[1]][q[0]]))
+            C[i][j] = minor if (i + j) % 2 == 0 else v_mul(-1.0, minor)
+    return C
+
+
+@obligation(P, 'O1b.det_inv_derivatives', cap=240)
+def o1b(h):
+    """jax.jvp and jax.grad of TensorMath.det and detpIm1 equal the derivative of the determinant polynomial, cof(A) : dA resp.
+    cof(A + I) : dA, for ALL real 3x3 A and dA (9 + 9 reals, non-symmetric included).
+    Pins any hand-written derivative rule of these helpers"""
+    T = TM()
+    h.encoded(T.det, T.detpIm1, T.inv, T.trace, T.I2)
+    h.bounds('A, dA: all real 3x3 matrices (18 free reals)')
+    h.outside('derivative of inv (see DESIGNED_NOT_REGISTERED)', *NA)
+
+    def fn(A, dA):
+        d, dd = jax.jvp(T.det, (A,), (dA,))
+        p, dp = jax.jvp(T.detpIm1, (A,), (dA,))
+        return dd, dp, jax.grad(T.det)(A), jax.grad(T.detpIm1)(A)
+    ex = onp.eye(3) * 0.7 + onp.arange(9).reshape(3, 3) * 0.05
+    c = Case(h, fn, dict(A=ex, dA=onp.ones((3, 3)) * 0.3 + ex.T), sampler=lambda rng: [rnd33(rng), rnd33(rng)], label='det_derivatives')
+
+    def spec(i, o):
+        A, dA = M(i['A']), M(i['dA'])
+        C, CI = cofactor(A), cofactor(madd(A, eye()))
+        return [], [Eq(s0(o[0]), v_dot(fl(C), fl(dA)), name='jvp_det_is_cofactor_ddot_dA'),
+                    Eq(s0(o[1]), v_dot(fl(CI), fl(dA)), name='jvp_detpIm1_is_cofactor_of_A_plus_I_ddot_dA'),
+                    Eq(fl(M(o[2])), fl(C), name='grad_det_is_cofactor_matrix'),
+                    Eq(fl(M(o[3])), fl(CI), name='grad_detpIm1_is_cofactor_of_A_plus_I')]
+    c.prove('det', spec, order=('nlsat', 'core'), cap=60)
+
